@@ -490,4 +490,15 @@ func growSig(r *rand.Rand, s *absSig, target int) {
 		}
 		d.Upid = append(d.Upid, byte(r.Intn(256)))
 	}
+	// the exact length: foreign descriptors fill what is missing (two bytes of tag and length each)
+	for rem := target - len(s.section()); rem >= 2; rem = target - len(s.section()) {
+		n := rem - 2
+		if n > 255 {
+			n = 255
+		}
+		if rem-2-n == 1 { // never leave a single byte
+			n--
+		}
+		s.Descs = append(s.Descs, absSDesc{Kind: "foreign", Tag: []int{1, 3, 0xff}[r.Intn(3)], Body: rndBytes(r, n)})
+	}
 }
